@@ -17,7 +17,9 @@ INFO = {
 KEY_DASH = "C15:'-' between two numeric parts (vYYYY.INC0[-PATCH], YYYY0M-BUILD): implicit post release lost in {pep440_version}"
 
 QUICK = ["vYYYY.0M.PATCH[-TAG[NUM]]", "MAJOR.MINOR.PATCH[PYTAGNUM]", "vYYYY0M.BUILD[-TAG]", "YYYY.MM[.INC0]", "vMAJOR.MINOR[.PATCH[-TAGNUM]]",
-         "YYYY.0M.0D", "vYY.BLD[-PYTAGNUM]"]
+         "YYYY.0M.0D", "vYY.BLD[-PYTAGNUM]",
+         # one pattern per entry of the zero-padding substitution table (0W, 0U, 0V, 00J; 0M, 0D, BUILD, TAG are above)
+         "YYYY.0W.PATCH", "YYYY.0U.PATCH", "GGGG.0V.PATCH", "YYYY.00J"]
 DASHED = ["vYYYY.INC0[-PATCH]"]
 
 
